@@ -14,15 +14,14 @@ SHORTHAND_RE = re.compile(r"[A-Za-z_\u0080-\U0010ffff][A-Za-z0-9_\u0080-\U0010ff
 BLANKS = [" ", "\t", "\n", "\r", "  ", " \n"]
 
 NAMES = ["a", "b", "c", "x", "k", "ys", "xs", "", "é", "😀", "a'b", 'a"b', "a\\", "\\", "\u0001", " ", "a b", "and", "true",
-         "null", "/", "~", "a/b", "1", "-1", "01", "*", "$", "@", "..", "[", "'", '"', "\n", "_x", "x-y", "in", "\u007f", "\x1f"]
+         "null", "/", "~", "a/b", "1", "-1", "01", "*", "$", "@", "..", "[", "'", '"', "\n", "_x", "x-y", "in", "\u007f", "\x1f",
+         '\\"', 'x\\"y', "\\'", '"\\', "'\\\"", "\\\\"]
 SIMPLE_NAMES = ["a", "b", "c", "x", "k", "ys", "xs"]
 
 
 def can_shorthand(name: str, after_ddot: bool) -> bool:
     if not SHORTHAND_RE.match(name):
         return False
-    if after_ddot and name in RESERVED:
-        return False  # documented departure: the descendant shorthand cannot spell a reserved word
     return True
 
 
